@@ -64,8 +64,9 @@ class DirectoryMatcher:
         """
         if dir_path == "/":
             return self._check_root_match(dir_path, path_str)
-        if path_str.startswith(dir_path):
-            depth = len(dir_path.split("/"))
+        dir_prefix = dir_path.rstrip("/") + "/"
+        if path_str.startswith(dir_prefix):
+            depth = len(dir_path.rstrip("/").split("/"))
             return True, depth
         return False, -1
 
